@@ -213,3 +213,55 @@ pub fn verify<const M: usize>(i: &mut Inp) -> Out {
     };
     Out::new(ok, well_formed && addr_ok && initial_ap >= 4)
 }
+
+pub const fn layout_len(m: usize) -> usize {
+    4 * m + 4
+}
+/// check_main_page_layout (the address check every layout's verify_public_input runs before
+/// hashing by position): Ok => the page holds program_len + output_len cells, the first
+/// program_len at initial_pc + i and the last output_len at output_start + j (full field
+/// element equality, not a truncated comparison).
+pub fn page_layout<const M: usize>(i: &mut Inp) -> Out {
+    let mut page = Vec::with_capacity(M);
+    let mut k = 0;
+    while k < M {
+        page.push(AddrValue { address: i.felt(), value: Felt::ZERO });
+        k += 1;
+    }
+    let initial_pc = i.felt();
+    let plen = (i.u64() & 3) as usize;
+    let out_start = i.felt();
+    let olen = (i.u64() & 3) as usize;
+    let _pad = i.u64();
+    let _pad2 = i.u64();
+    let pi = PublicInput {
+        log_n_steps: Felt::ZERO,
+        range_check_min: Felt::ZERO,
+        range_check_max: Felt::ONE,
+        layout: Felt::ZERO,
+        dynamic_params: None,
+        segments: Vec::new(),
+        padding_addr: Felt::ZERO,
+        padding_value: Felt::ZERO,
+        main_page: Page(page),
+        continuous_page_headers: Vec::new(),
+    };
+    let r = swiftness_air::layout::check_main_page_layout(&pi, initial_pc, plen, out_start, olen);
+    let mut ok = Ok(());
+    if r.is_ok() {
+        ok = check(plen + olen <= M, "a page too short for program + output was accepted");
+        if plen + olen <= M {
+            let mut k = 0;
+            while k < plen {
+                ok = ok.and(check(pi.main_page[k].address == initial_pc + Felt::from(k as u64), "program cell at another address accepted"));
+                k += 1;
+            }
+            let mut k = 0;
+            while k < olen {
+                ok = ok.and(check(pi.main_page[M - olen + k].address == out_start + Felt::from(k as u64), "output cell at another address accepted"));
+                k += 1;
+            }
+        }
+    }
+    Out::new(ok, r.is_ok() && plen + olen >= 2)
+}
